@@ -133,6 +133,29 @@ func init() {
 			_ = rerr
 			return c.ret(Ite(fails, StrT(""), sig), Ite(fails, signerErr, NilIface))
 		}
+		// ---------------- yaml.v3 decoder: strictness is a property of the decoder ----------------
+		Y := "gopkg.in/yaml.v3"
+		m[Y+".NewDecoder"] = func(c *CallCtx) *Term {
+			l := e.allocLoc(c.st)
+			e.ghostSet(c.st, "yamlStrict", BoolS, l, False)
+			return l
+		}
+		m["(*"+Y+".Decoder).KnownFields"] = func(c *CallCtx) *Term {
+			e.ghostSet(c.st, "yamlStrict", BoolS, c.args[0], c.args[1])
+			return nil
+		}
+		m["(*"+Y+".Decoder).Decode"] = func(c *CallCtx) *Term {
+			// the document is decoded into the target (arbitrary content); keys the
+			// target does not define are rejected iff the decoder is strict
+			strict := e.ghostGet(c.st, "yamlStrict", BoolS, c.args[0])
+			e.flagSet(c.st, "yamlDecodedStrictly", strict)
+			if tag := IfaceTag(c.args[1]); tag.Op == "int" {
+				T := e.tr.typeOfTag(int(tag.IVal.Int64()))
+				e.havocPointee(c.st, T, e.unboxIface(c.st, T, c.args[1]))
+			}
+			bad := c.nondet("yamldecode")
+			return Ite(bad, e.libErr("yaml:decode"), NilIface)
+		}
 		m["(*os.File).Write"] = func(c *CallCtx) *Term {
 			// only os.Stderr is written by the code in scope (deprecation notices)
 			return c.ret(StrLen(c.args[1]), NilIface)
